@@ -112,8 +112,38 @@ def _spellings(rng, tier):
     return out
 
 
+def header_order_family(rng, tier):
+    """every order of the headers of small table trees (a deep header first creates its super-tables implicitly; they are
+    re-opened later, between siblings), with key/value lines in each: the decoded key ORDER is part of the property"""
+    import itertools
+    out = []
+    trees = [
+        [(b"p",), (b"p", b"a"), (b"p", b"a", b"b")],
+        [(b"a", b"b", b"c"), (b"a", b"x"), (b"a", b"y"), (b"a", b"z"), (b"a", b"b")],
+        [(b"p",), (b"p", b"a", b"b"), (b"q",), (b"p", b"c"), (b"p", b"a")],
+        [(b"t", b"u", b"v", b"w"), (b"t",), (b"t", b"u"), (b"t", b"u", b"v")],
+    ]
+    for paths in trees:
+        perms = list(itertools.permutations(range(len(paths))))
+        if tier == "quick" and len(perms) > 30:
+            perms = rng.sample(perms, 30)
+        for perm in perms:
+            st = []
+            for hi in perm:
+                st.append(("hdr", list(paths[hi])))
+                for j in range(rng.choice([0, 1, 2, 3])):
+                    st.append(("kv", [b"k%d%d" % (hi, j)], ("i", j)))
+            v = G.ref_eval(st)
+            if v[0] != "valid":
+                continue
+            text = G.Renderer(rng, plain=rng.random() < 0.5).document(st)
+            out.append(Case("doc", [text], {"kind": "header-order", "expect": G.dump_tab(v[1]), "nvals": sum(1 for s_ in st if s_[0] == "kv")}))
+            out.append(Case("docv", [text], {"kind": "serde-value", "expect": G.dump_tab(v[1])}))
+    return out
+
+
 def gen_cases(rng, tier):
-    out = _spellings(rng, tier)
+    out = _spellings(rng, tier) + header_order_family(rng, tier)
     n_docs = 8000 if tier == "quick" else 300000
     for _ in range(n_docs):
         tg = G.TreeGen(rng, small_keys=rng.random() < 0.2)
